@@ -20,7 +20,7 @@ RULE = ('operators (+ - * / ** neg ==, reflected with plain numbers), value(unit
         'distinct by (operation, operand kinds and units, follow-up steps)')
 SHARDS = {'quick': 16, 'thorough': 16}
 MIN_NONTRIVIAL = {'quick': 2500, 'thorough': 60000}
-REQUIRED_CLASSES = ['op:+', 'op:-', 'op:*', 'op:/', 'op:==', 'op:pow', 'op:neg', 'op:getitem', 'op:value', 'op:ufunc', 'op:func',
+REQUIRED_CLASSES = ['neutral-element-operand', 'op:+', 'op:-', 'op:*', 'op:/', 'op:==', 'op:pow', 'op:neg', 'op:getitem', 'op:value', 'op:ufunc', 'op:func',
                     'reflected', 'kind:same-unit', 'kind:other-unit', 'kind:reciprocal', 'kind:nodim', 'kind:log', 'kind:temp',
                     'kind:decimal', 'kind:array', 'kind:uncertain', 'followup:to', 'followup:rebase', 'followup:abse', 'followup:rele',
                     'followup:write', 'followup-on-result', 'followup-on-operand', 'twin-probe', 'repo-tests-under-contracts']
@@ -125,10 +125,16 @@ def cases(rng, tier, shard, nshards, ctx):
                 a['dec'] = True; a['abse'] = None
             if which in ('b', 'both'):
                 b['dec'] = True; b['abse'] = None
+        if rng.random() < 0.12:
+            # neutral-element second operand: 1 (dimensionless) for * and /, 0 in the same unit for + and -
+            if rng.random() < 0.5:
+                b = dict(v=[1.0, 1.0, 1.0] if isinstance(b['v'], list) else 1.0, u=None, abse=None, dec=False)
+            else:
+                b = dict(v=0.0, u=b['u'], abse=None, dec=False)
         # ---- operation
         o = rng.random()
         if o < 0.42:
-            op = dict(k='bin', op=rng.choice(['+', '-', '+', '-', '*', '/']), side=rng.choice(['QQ', 'QQ', 'QQ', 'Qn', 'nQ']), num=rng.choice([2.0, 0.5, 3, -1.5]))
+            op = dict(k='bin', op=rng.choice(['+', '-', '+', '-', '*', '/']), side=rng.choice(['QQ', 'QQ', 'QQ', 'Qn', 'nQ']), num=rng.choice([2.0, 0.5, 3, -1.5, 1, 1.0, 0, 0.0]))
         elif o < 0.52:
             op = dict(k='eq', side=rng.choice(['QQ', 'QQ', 'Qn']), num=rng.choice([2.0, 1]))
         elif o < 0.58:
@@ -249,6 +255,8 @@ def _run(case, ctx):
         classes.append('kind:array')
     if a_spec.get('abse') is not None or b_spec.get('abse') is not None:
         classes.append('kind:uncertain')
+    if (b_spec['v'] in (0.0, 1.0) or b_spec['v'] == [1.0, 1.0, 1.0]) or (op['k'] == 'bin' and op['side'] != 'QQ' and op['num'] in (0, 1)):
+        classes.append('neutral-element-operand')
     devs, mon = [], {}
     try:
         A, B = build(ctx, a_spec), build(ctx, b_spec)
